@@ -281,26 +281,106 @@ fn assert_access_one<I: Identifier>(access: &Access<I>, id: &I, desc: &str) {
 
 impl<I: Identifier> AccessControlList<I> {
     pub fn assert_read_access_to_all(&self, ids: &[I]) {
+        #[cfg(fontc_verif)]
+        for id in ids {
+            verif_hooks::access("r", std::any::type_name::<I>(), id);
+        }
         assert_access_many(AccessCheck::All, &self.read_access, ids, "read");
     }
 
     pub fn assert_read_access_to_any(&self, ids: &[I]) {
+        #[cfg(fontc_verif)]
+        for id in ids {
+            verif_hooks::access("r", std::any::type_name::<I>(), id);
+        }
         assert_access_many(AccessCheck::Any, &self.read_access, ids, "read");
     }
 
     pub fn assert_read_access(&self, id: &I) {
+        #[cfg(fontc_verif)]
+        verif_hooks::access("r", std::any::type_name::<I>(), id);
         assert_access_one(&self.read_access, id, "read");
     }
 
     pub fn assert_write_access_to_all(&self, ids: &[I]) {
+        #[cfg(fontc_verif)]
+        for id in ids {
+            verif_hooks::access("w", std::any::type_name::<I>(), id);
+        }
         assert_access_many(AccessCheck::All, &self.write_access, ids, "write");
     }
 
     pub fn assert_write_access_to_any(&self, ids: &[I]) {
+        #[cfg(fontc_verif)]
+        for id in ids {
+            verif_hooks::access("w", std::any::type_name::<I>(), id);
+        }
         assert_access_many(AccessCheck::Any, &self.write_access, ids, "write");
     }
 
     pub fn assert_write_access(&self, id: &I) {
+        #[cfg(fontc_verif)]
+        verif_hooks::access("w", std::any::type_name::<I>(), id);
         assert_access_one(&self.write_access, id, "write");
+    }
+}
+
+/// Verification hooks (guarded by `--cfg fontc_verif`): an in-memory event log of
+/// context accesses and scheduler events, used by the /verif correspondence harness.
+#[cfg(fontc_verif)]
+pub mod verif_hooks {
+    use std::cell::RefCell;
+    use std::fmt::Debug;
+    use std::sync::Mutex;
+    use std::sync::atomic::{AtomicBool, Ordering};
+
+    thread_local! {
+        static CURRENT: RefCell<Option<String>> = const { RefCell::new(None) };
+    }
+    static ENABLED: AtomicBool = AtomicBool::new(false);
+    static LOG: Mutex<Vec<String>> = Mutex::new(Vec::new());
+
+    pub fn enable(on: bool) {
+        ENABLED.store(on, Ordering::SeqCst);
+    }
+
+    pub fn enabled() -> bool {
+        ENABLED.load(Ordering::Relaxed)
+    }
+
+    /// The job (or `deliver:<id>` handler) the current thread is executing.
+    pub fn set_current(job: Option<String>) {
+        CURRENT.with(|c| *c.borrow_mut() = job);
+    }
+
+    pub fn current() -> Option<String> {
+        CURRENT.with(|c| c.borrow().clone())
+    }
+
+    pub fn log(line: String) {
+        if enabled() {
+            LOG.lock().unwrap_or_else(|e| e.into_inner()).push(line);
+        }
+    }
+
+    pub fn take() -> Vec<String> {
+        std::mem::take(&mut *LOG.lock().unwrap_or_else(|e| e.into_inner()))
+    }
+
+    pub fn esc(s: &str) -> String {
+        s.replace('\\', "\\\\").replace('"', "\\\"")
+    }
+
+    pub fn access<I: Debug>(kind: &str, ty: &str, id: &I) {
+        if !enabled() {
+            return;
+        }
+        let by = current().unwrap_or_default();
+        log(format!(
+            "{{\"ev\":\"access\",\"kind\":\"{kind}\",\"ty\":\"{}\",\"item\":\"{}\",\"by\":\"{}\"}}",
+            esc(ty),
+            esc(&format!("{id:?}")),
+            esc(&by)
+        ));
     }
 }
